@@ -131,3 +131,91 @@ func longStreamCases(prop string, r *rng.R) {
 		runLongStream(prop, sp)
 	}
 }
+
+// Dictionary strings of boundary lengths: whether a string enters the dictionary is a wire
+// convention that encoder and decoder implement separately (longer than 1 byte: yes). A value of any
+// length the format allows, followed by new and repeated values, must leave both sides with the same
+// dictionary. Lengths around the varint and buffer-size boundaries, up to just over 1 MiB.
+func dictStringLengthCases(prop string) {
+	lens := []int{0, 1, 2, 3, 127, 128, 129, 16383, 16384, 16385, 65535, 65536, 65537, 1<<20 + 1}
+	if thorough {
+		lens = append(lens, 255, 256, 32767, 32768, 131071, 131072, 131073, 4<<20+3)
+	}
+	for ci, comp := range []pkg.Compression{pkg.CompressionNone, pkg.CompressionZstd} {
+		for _, L := range lens {
+			name := fmt.Sprintf("dictstr-len-%d-c%d", L, ci)
+			note("case %s", name)
+			long := make([]byte, L)
+			for i := range long {
+				long[i] = byte('a' + (i*7+L)%26)
+			}
+			S := string(long)
+			names := []string{"first", S, "alpha", "beta", "alpha", "beta", "first", "gamma", S, "alpha", "delta", S + "x", "delta", "gamma"}
+			cw := &chunkLog{}
+			w, err := otelstef.NewSpansWriter(cw, pkg.WriterOptions{Compression: comp})
+			if err != nil {
+				propFail("%s dictstr-writer case=%s %v", prop, name, err)
+				continue
+			}
+			bad := false
+			for i, n := range names {
+				w.Record.Span().SetName(n)
+				w.Record.Span().SetStartTimeUnixNano(uint64(i))
+				if err := w.Write(); err != nil {
+					propFail("%s dictstr-write case=%s record %d: %v", prop, name, i, err)
+					bad = true
+					break
+				}
+				if i == 5 {
+					w.Flush()
+				}
+			}
+			if bad {
+				continue
+			}
+			w.Flush()
+			stats["dictstr-length-cases"]++
+			note("nontrivial %x", uint64(L)<<1|uint64(ci))
+			rd, err := otelstef.NewSpansReader(bytes.NewReader(cw.buf.Bytes()))
+			if err != nil {
+				propFail("%s dictstr-not-readable case=%s %v", prop, name, err)
+				continue
+			}
+			for i, n := range names {
+				if err := rd.Read(pkg.ReadOptions{}); err != nil {
+					propFail("%s dictstr-not-readable case=%s span names %s with S of %d bytes, compression=%d: Read of record %d returned %v", prop, name, descNames(names, L), L, comp, i, err)
+					break
+				}
+				if got := rd.Record.Span().Name(); got != n || rd.Record.Span().StartTimeUnixNano() != uint64(i) {
+					propFail("%s dictstr-value-changed case=%s span names %s with S of %d bytes, compression=%d: record %d read back as %s, written %s", prop, name, descNames(names, L), L, comp, i, descName(got, L), descName(n, L))
+					break
+				}
+			}
+		}
+	}
+}
+
+func descName(s string, L int) string {
+	if len(s) > 40 {
+		return fmt.Sprintf("<%d bytes>", len(s))
+	}
+	return fmt.Sprintf("%q", s)
+}
+
+func descNames(ns []string, L int) string {
+	out := ""
+	for i, n := range ns {
+		if i > 0 {
+			out += ","
+		}
+		switch {
+		case len(n) == L && L > 8:
+			out += "S"
+		case len(n) == L+1 && L > 8:
+			out += "S+x"
+		default:
+			out += fmt.Sprintf("%q", n)
+		}
+	}
+	return "[" + out + "]"
+}
